@@ -24,7 +24,7 @@ DAMAGES = ["torn", "garbage", "nonutf8", "empty", "bad-constraint", "missing-key
 
 def generate(rng, tier, idx):
     root = pick(rng, ["/sim/c", "/sim/c", "/sim/compose[1]", "/sim/F-22-updates[testing]-20150522.2", "/sim/with space", "/sim/st*r?",
-                      "/sim/ünï", "/sim/deep/er/c", "/sim/.hidden"])
+                      "/sim/ünï", "/sim/deep/er/c", "/sim/.hidden", "/sim/compose", "/sim/x/compose", "/sim/metadata", "/sim/n#4", "/sim/what?", "/sim/a%20b"])
     ops = [{"op": "cd_mkdir", "path": root}]
     tag = [0]
 
